@@ -24,8 +24,8 @@ try:
   def demo(tree):
     src = open(os.path.join(seed, 'demo.py')).read()
     # demos assert their own worktree path; point them at the tree being tested
-    for i in range(1, 21):
-      src = src.replace('/tmp/seed-C%02d' % i, tree)
+    import re
+    src = re.sub(r'/tmp/seed-C\d\d(?!-out)', tree, src)
     p = os.path.join(tree, '_demo.py')
     open(p, 'w').write(src)
     r = subprocess.run(['/venv/bin/python', p], cwd=tree, env=dict(os.environ, PYTHONPATH=tree),
